@@ -1,4 +1,6 @@
-import ThermoVerif.Props.C09Array
+import ThermoVerif.Lemmas.C09Array2Aux
+-- Only statements of the property live in this file.  Helper lemmas and the auxiliary vocabulary they need are in
+-- Lemmas/C09Array2Aux.lean (same namespace); clauses without a theorem are listed at the end of Props/C09.lean.
 /-
 Property C09, 2-d clauses, second part: in-place operators of a SparseArray against `np2i`,
 boolean-row arrays, the remaining reductions, 2-d get/set.
@@ -8,151 +10,10 @@ open ThermoVerif.Sparse ThermoVerif.Dense
 
 /-! ### the row loop of the in-place templates -/
 
-theorem option_mapM_cons {α β : Type} (f : α → Option β) (a : α) (l : List α) :
-    (a :: l).mapM f = (f a).bind (fun b => (l.mapM f).bind (fun bs => some (b :: bs))) := by
-  rw [List.mapM_cons]
-  cases f a <;> simp [bind, Option.bind]
-
-theorem rowsVec_cons (s : Store) (rid : Nat) (rids : List Nat) :
-    s.rowsVec (rid :: rids) = (s.getVec rid).bind (fun v => (s.rowsVec rids).bind (fun vs => some (v :: vs))) := by
-  unfold Store.rowsVec; exact option_mapM_cons _ _ _
-
-theorem rowsVec_congr (s t : Store) (rids : List Nat) (h : ∀ j ∈ rids, t[j]? = s[j]?) : t.rowsVec rids = s.rowsVec rids := by
-  induction rids with
-  | nil => rfl
-  | cons r rids ih =>
-    rw [rowsVec_cons, rowsVec_cons, ih (fun j hj => h j (List.mem_cons_of_mem _ hj))]
-    have : t.getVec r = s.getVec r := by unfold Store.getVec; rw [h r List.mem_cons_self]
-    rw [this]
-
-/-- the loop `for (row, x) in pairs: row._i<op>_…(x)` on distinct row objects: every row is replaced by
-the kernel's result on its old value, nothing else changes -/
-theorem foldlM_updRow {β : Type} (K : β → VecObj → Except Err VecObj) :
-    ∀ (ps : List (Nat × β)) (s s' : Store) (vs : List VecObj),
-      (ps.map Prod.fst).Nodup → s.rowsVec (ps.map Prod.fst) = some vs →
-      ps.foldlM (fun s p => updRow s p.1 (K p.2)) s = .ok s' →
-      ∃ vs', (List.zip ps vs).mapM (fun q => K q.1.2 q.2) = .ok vs' ∧ s'.rowsVec (ps.map Prod.fst) = some vs' ∧
-        (∀ j, j ∉ ps.map Prod.fst → s'[j]? = s[j]?) := by
-  intro ps
-  induction ps with
-  | nil =>
-    intro s s' vs _ hv h
-    simp only [List.foldlM_nil, pure, Except.pure, Except.ok.injEq] at h; subst h
-    exact ⟨[], rfl, rfl, fun _ _ => rfl⟩
-  | cons p ps ih =>
-    intro s s' vs hnd hv h
-    simp only [List.map_cons, List.nodup_cons] at hnd
-    rw [List.foldlM_cons] at h
-    obtain ⟨s1, h1, h2⟩ := except_bind_ok h
-    -- the first row
-    simp only [List.map_cons] at hv
-    rw [rowsVec_cons] at hv
-    cases hg : s.getVec p.1 with
-    | none => rw [hg] at hv; cases hv
-    | some v =>
-      rw [hg] at hv
-      simp only [Option.bind] at hv
-      cases hrest : s.rowsVec (ps.map Prod.fst) with
-      | none => rw [hrest] at hv; cases hv
-      | some vrest =>
-        rw [hrest] at hv
-        simp only [Option.some.injEq] at hv; subst hv
-        unfold updRow at h1
-        rw [hg] at h1
-        obtain ⟨v', hv', e⟩ := except_map_ok h1; subst e
-        have hfr1 : ∀ j, j ≠ p.1 → (s.set p.1 v'.toObj)[j]? = s[j]? := fun j hj => getElem?_set_ne _ hj
-        have hrest1 : Store.rowsVec (s.set p.1 v'.toObj) (ps.map Prod.fst) = some vrest := by
-          rw [rowsVec_congr s _ _ (fun j hj => hfr1 j (by intro e; subst e; exact hnd.1 hj)), hrest]
-        obtain ⟨vs', hm, hr, hfr⟩ := ih _ s' vrest hnd.2 hrest1 h2
-        refine ⟨v' :: vs', ?_, ?_, ?_⟩
-        · simp only [List.zip_cons_cons, List.mapM_cons, hv', hm]; rfl
-        · simp only [List.map_cons]
-          rw [rowsVec_cons, hr]
-          have : s'.getVec p.1 = some v' := by
-            have h3 := hfr p.1 hnd.1
-            apply getVec_toObj
-            rw [h3, List.getElem?_set]
-            have hi : p.1 < s.length := by
-              unfold Store.getVec at hg
-              by_contra hc
-              have : s[p.1]? = none := List.getElem?_eq_none (by omega)
-              simp [this] at hg
-            simp [hi]
-          rw [this]; rfl
-        · intro j hj
-          simp only [List.map_cons, List.mem_cons, not_or] at hj
-          rw [hfr j hj.2, hfr1 j hj.1]
-
-/-- the same for `for row in rows: row._i<op>_…(operand)` with one operand for all rows -/
-theorem foldlM_updRow_const (K : VecObj → Except Err VecObj) (rids : List Nat) (s s' : Store) (vs : List VecObj)
-    (hnd : rids.Nodup) (hv : s.rowsVec rids = some vs)
-    (h : rids.foldlM (fun s rid => updRow s rid K) s = .ok s') :
-    ∃ vs', vs.mapM K = .ok vs' ∧ s'.rowsVec rids = some vs' ∧ (∀ j, j ∉ rids → s'[j]? = s[j]?) := by
-  have hmap : (rids.map (fun r => (r, ()))).map Prod.fst = rids := by simp [List.map_map, Function.comp_def]
-  have h' : (rids.map (fun r => (r, ()))).foldlM (fun s p => updRow s p.1 ((fun _ => K) p.2)) s = .ok s' := by
-    rw [List.foldlM_map]; exact h
-  obtain ⟨vs', hm, hr, hfr⟩ := foldlM_updRow (fun (_ : Unit) => K) _ s s' vs (by rw [hmap]; exact hnd) (by rw [hmap]; exact hv) h'
-  rw [hmap] at hr hfr
-  refine ⟨vs', ?_, hr, hfr⟩
-  have hlen : vs.length = rids.length := by
-    unfold Store.rowsVec at hv
-    clear h h' hm hr hfr hmap hnd
-    induction rids generalizing vs with
-    | nil => simp [List.mapM_nil, pure] at hv; subst hv; rfl
-    | cons r rids ih =>
-      rw [option_mapM_cons] at hv
-      cases hg : s.getVec r with
-      | none => rw [hg] at hv; cases hv
-      | some v =>
-        rw [hg] at hv
-        cases hr : rids.mapM s.getVec with
-        | none => rw [hr] at hv; cases hv
-        | some vr =>
-          rw [hr] at hv
-          simp only [Option.bind, Option.some.injEq] at hv; subst hv
-          simp [ih vr hr]
-  -- zip with a list of units is a map
-  have : (List.zip (rids.map (fun r => (r, ()))) vs).mapM (fun q => (fun (_ : Unit) => K) q.1.2 q.2) = vs.mapM K := by
-    clear h h' hm hr hfr hmap hnd hv
-    induction rids generalizing vs with
-    | nil => cases vs <;> simp at hlen; rfl
-    | cons r rids ih =>
-      cases vs with
-      | nil => simp at hlen
-      | cons v vs =>
-        simp only [List.map_cons, List.zip_cons_cons, List.mapM_cons]
-        rw [ih vs (by simpa using hlen)]
-  rw [← this]; exact hm
-
 /-! ### (1) in-place 2-d operators against `np2i`
 
 Guard: NumPy accepts the in-place shape (`InplaceOK` for every row) and the row objects of the target
 are distinct (an array built by `sa[[0, 0]]` holds one object twice; NumPy has no counterpart). -/
-
-theorem np1_inplace_length (f : Rat → Rat → Rat) (a b r : Vec) (hok : a.length = b.length ∨ b.length = 1)
-    (h : np1 f a b = .ok r) : r.length = a.length := by
-  unfold np1 at h
-  by_cases h1 : a.length = b.length
-  · rw [if_pos h1] at h; simp only [Except.ok.injEq] at h; subst h; simp [h1]
-  · have h3 : b.length = 1 := hok.resolve_left h1
-    have h2 : ¬ a.length = 1 := by omega
-    rw [if_neg h1, if_neg h2, if_pos h3] at h
-    simp only [Except.ok.injEq] at h; subst h; simp
-
-theorem shapeOf_denseRows_eq (rows rows' : List SV) (h : rows'.map SV.size = rows.map SV.size) :
-    shapeOf (denseRows rows') = shapeOf (denseRows rows) := by
-  unfold shapeOf denseRows
-  have hl : rows'.length = rows.length := by simpa using congrArg List.length h
-  cases rows with
-  | nil => cases rows' with
-    | nil => rfl
-    | cons _ _ => simp at hl
-  | cons a rows => cases rows' with
-    | nil => simp at hl
-    | cons a' rows' =>
-      simp only [List.map_cons, List.cons.injEq] at h
-      have hl' : rows'.length = rows.length := by simpa using hl
-      simp [SV.toDense_length, h.1, hl']
 
 /-- lifting of an in-place row kernel that keeps the row size to the 2-d reference `np2i` -/
 theorem inplace_rows_hom_guard (f : Rat → Rat → Rat) (K : VecObj → Except Err VecObj) (y : Vec) (G : SV → Prop)
@@ -184,53 +45,10 @@ theorem inplace_rows_hom_guard (f : Rat → Rat → Rat) (K : VecObj → Except 
     · simp only [denseRows, List.map_cons, List.mapM_cons] at hd ⊢
       rw [hnp, hd]; rfl
 
-theorem np2i_single (f : Rat → Rat → Rat) (rows rows' : List SV) (y : Vec)
-    (hsz : rows'.map SV.size = rows.map SV.size)
-    (hd : (denseRows rows).mapM (fun r => np1 f r y) = .ok (denseRows rows')) :
-    np2i f (denseRows rows) [y] = .ok (denseRows rows') := by
-  unfold np2i
-  rw [np2_single, hd]
-  simp [shapeOf_denseRows_eq rows rows' hsz]
-
-/-- the in-place kernel of a float row with a float operand: NumPy's row, same size, still well formed -/
-theorem irow_hom_sparse (op : BinOp) (ar : Arith) (hop : arithOf op = some ar) (a b : SV) (r : VecObj)
-    (ha : a.WF) (hb : b.WF) (hok : InplaceOK a.size b.size) (h : (VecObj.sv a).iopSparse op (.sv b) = .ok r) :
-    ∃ c, r = .sv c ∧ c.WF ∧ c.size = a.size ∧ np1 op.fn a.toDense b.toDense = .ok c.toDense := by
-  simp only [VecObj.iopSparse, hop, VecObj.toSV] at h
-  obtain ⟨c, hc, e⟩ := except_map_ok h
-  obtain ⟨h1, h2⟩ := dense_hom_arith_sparse ar true a b c ha hb hc
-  refine ⟨c, e, h1, ?_, by rw [arithOf_fn op ar hop]; exact h2⟩
-  have := np1_inplace_length _ _ _ _ (by simpa [SV.toDense_length, InplaceOK] using hok) h2
-  simpa [SV.toDense_length] using this
-
-theorem irow_hom_array (op : BinOp) (ar : Arith) (hop : arithOf op = some ar) (a : SV) (l : Vec) (r : VecObj)
-    (ha : a.WF) (hok : InplaceOK a.size l.length) (h : (VecObj.sv a).iopArray op l = .ok r) :
-    ∃ c, r = .sv c ∧ c.WF ∧ c.size = a.size ∧ np1 op.fn a.toDense l = .ok c.toDense := by
-  simp only [VecObj.iopArray, hop] at h
-  obtain ⟨c, hc, e⟩ := except_map_ok h
-  obtain ⟨h1, h2⟩ := dense_hom_arith_array ar a c l ha hc
-  refine ⟨c, e, h1, ?_, by rw [arithOf_fn op ar hop]; exact h2⟩
-  have := np1_inplace_length _ _ _ _ (by simpa [SV.toDense_length, InplaceOK] using hok) h2
-  simpa [SV.toDense_length] using this
-
-theorem irow_hom_scalar (op : BinOp) (ar : Arith) (hop : arithOf op = some ar) (a : SV) (x : Rat) (r : VecObj)
-    (ha : a.WF) (h : (VecObj.sv a).iopScalar op x = .ok r) :
-    ∃ c, r = .sv c ∧ c.WF ∧ c.size = a.size ∧ np1 op.fn a.toDense [x] = .ok c.toDense := by
-  simp only [VecObj.iopScalar, hop] at h
-  obtain ⟨c, hc, e⟩ := except_map_ok h
-  obtain ⟨h1, h2⟩ := dense_hom_arith_scalar ar a c x ha hc
-  refine ⟨c, e, h1, ?_, ?_⟩
-  · have := congrArg List.length h2
-    simpa [np1s, SV.toDense_length] using this
-  · rw [np1_singleton, arithOf_fn op ar hop, h2]
-
 /-- what the theorems below conclude about `sa op= operand` -/
 def InplaceAgrees (s s' : Store) (rowIds : List Nat) (rows : List SV) (f : Rat → Rat → Rat) (y : Vec) : Prop :=
   ∃ rows', s'.rowsVec rowIds = some (svRows rows') ∧ (∀ c ∈ rows', c.WF) ∧
     np2i f (denseRows rows) [y] = .ok (denseRows rows') ∧ (∀ j, j ∉ rowIds → s'[j]? = s[j]?)
-
-theorem readOnly_svRows (rows : List SV) : (svRows rows).any (·.readOnly) = rows.any (·.readOnly) := by
-  simp [svRows, List.any_map, Function.comp_def, VecObj.readOnly]
 
 /-- **`sa op= x`** (`+ − × ÷`, scalar operand) -/
 theorem dense_hom_isa_scalar (s s' : Store) (op : BinOp) (ar : Arith) (hop : arithOf op = some ar)
@@ -265,9 +83,6 @@ theorem dense_hom_isa_vector (s s' : Store) (op : BinOp) (ar : Arith) (hop : ari
       (fun a r ha hg hk => irow_hom_array op ar hop a v r ha hg hk) rows vs' hw hok hm
     subst e
     exact ⟨rows', hr, hw', np2i_single _ _ _ _ hsz hd, hfr⟩
-
-theorem isBoolObj_sv (s : Store) (j : Nat) (b : SV) (h : s[j]? = some (.sv b)) : s.isBoolObj j = false := by
-  unfold Store.isBoolObj; rw [h]
 
 /-- **`sa op= sv`** (SparseVector operand of the row length or of length 1; it may be one of the rows of
 `sa`: it is read before the loop) -/
@@ -351,57 +166,6 @@ theorem inplace_pairs_hom (f : Rat → Rat → Rat) {β : Type} (K : β → VecO
       · simp only [denseRows, List.map_cons, List.zip_cons_cons, List.mapM_cons] at hd ⊢
         rw [hnp, hd]; rfl
 
-theorem rowsVec_length {s : Store} {rids : List Nat} {vs : List VecObj} (h : s.rowsVec rids = some vs) : vs.length = rids.length := by
-  unfold Store.rowsVec at h
-  induction rids generalizing vs with
-  | nil => simp [List.mapM_nil, pure] at h; subst h; rfl
-  | cons r rids ih =>
-    rw [option_mapM_cons] at h
-    cases hg : s.getVec r with
-    | none => rw [hg] at h; cases h
-    | some v =>
-      rw [hg] at h
-      cases hr : rids.mapM s.getVec with
-      | none => rw [hr] at h; cases h
-      | some vr =>
-        rw [hr] at h
-        simp only [Option.bind, Option.some.injEq] at h; subst h
-        simp [ih hr]
-
-theorem map_fst_zip {α β : Type} (l : List α) (m : List β) (h : l.length = m.length) : (List.zip l m).map Prod.fst = l := by
-  induction l generalizing m with
-  | nil => rfl
-  | cons a l ih =>
-    cases m with
-    | nil => simp at h
-    | cons b m => simp [ih m (by simpa using h)]
-
-theorem map_snd_zip {α β : Type} (l : List α) (m : List β) (h : l.length = m.length) : (List.zip l m).map Prod.snd = m := by
-  induction l generalizing m with
-  | nil => cases m <;> simp at h ⊢
-  | cons a l ih =>
-    cases m with
-    | nil => simp at h
-    | cons b m => simp [ih m (by simpa using h)]
-
-theorem zip3_mem {α β γ : Type} : ∀ (l : List α) (m : List β) (r : List γ) (q : (α × β) × γ),
-    q ∈ List.zip (List.zip l m) r → (q.2, q.1.2) ∈ List.zip r m := by
-  intro l
-  induction l with
-  | nil => intro m r q h; simp at h
-  | cons a l ih =>
-    intro m r q h
-    cases m with
-    | nil => simp at h
-    | cons b m =>
-      cases r with
-      | nil => simp at h
-      | cons c r =>
-        simp only [List.zip_cons_cons, List.mem_cons] at h ⊢
-        rcases h with e | e
-        · subst e; exact Or.inl rfl
-        · exact Or.inr (ih m r q e)
-
 /-- **`sa op= [[..],[..]]`** (2-d literal with the same number of rows, rows of the row length or length 1) -/
 theorem dense_hom_isa_matrix (s s' : Store) (op : BinOp) (ar : Arith) (hop : arithOf op = some ar)
     (rowIds : List Nat) (rows : List SV) (l : Lit) (m : Mat)
@@ -440,88 +204,6 @@ theorem dense_hom_isa_matrix (s s' : Store) (op : BinOp) (ar : Arith) (hop : ari
     simp [shapeOf_denseRows_eq rows rows' hsz]
 
 /-! `sa op= sb` with a multi-row operand whose row objects are not rows of `sa` -/
-
-/-- the step of the zipped SparseArray loop, with the operand row given -/
-def stepPre (op : BinOp) (conv : VecObj → VecObj) (o : Option VecObj) (r : VecObj) : Except Err VecObj :=
-  match o with
-  | some ov => r.iopSparse op (conv ov)
-  | none => .error .type
-
-theorem updRow_stepPre (t : Store) (rid : Nat) (op : BinOp) (conv : VecObj → VecObj) (o : Option VecObj) :
-    (match o with
-      | some ov => updRow t rid (fun r => r.iopSparse op (conv ov))
-      | none => Except.error Err.type) = updRow t rid (stepPre op conv o) := by
-  cases o with
-  | some ov => rfl
-  | none =>
-    unfold updRow stepPre
-    cases t.getVec rid <;> rfl
-
-/-- reading the operand rows from the running store or from the initial one is the same when they are
-not among the rows being written -/
-theorem foldlM_read_eq (s : Store) (R : List Nat) (op : BinOp) (conv : VecObj → VecObj) :
-    ∀ (ps : List (Nat × Nat)) (t : Store), (∀ p ∈ ps, p.1 ∈ R ∧ p.2 ∉ R) → (∀ j, j ∉ R → t[j]? = s[j]?) →
-      ps.foldlM (fun t p => match t.getVec p.2 with
-        | some ov => updRow t p.1 (fun r => r.iopSparse op (conv ov))
-        | none => Except.error Err.type) t =
-      ps.foldlM (fun t p => updRow t p.1 (stepPre op conv (s.getVec p.2))) t := by
-  intro ps
-  induction ps with
-  | nil => intro t _ _; rfl
-  | cons p ps ih =>
-    intro t hp ht
-    rw [List.foldlM_cons, List.foldlM_cons]
-    have hg : t.getVec p.2 = s.getVec p.2 := by
-      unfold Store.getVec; rw [ht p.2 (hp p List.mem_cons_self).2]
-    rw [hg, updRow_stepPre]
-    cases hu : updRow t p.1 (stepPre op conv (s.getVec p.2)) with
-    | error e => rfl
-    | ok t1 =>
-      simp only [bind, Except.bind]
-      apply ih t1 (fun q hq => hp q (List.mem_cons_of_mem _ hq))
-      intro j hj
-      have := (updRow_frame p.1 _ hu).2 j (by intro e; subst e; exact hj (hp p List.mem_cons_self).1)
-      rw [this, ht j hj]
-
-theorem rowsVec_zip_getVec (s : Store) : ∀ (orows : List Nat) (ors : List VecObj), s.rowsVec orows = some ors →
-    orows.map s.getVec = ors.map some := by
-  intro orows
-  induction orows with
-  | nil => intro ors h; simp [Store.rowsVec, List.mapM_nil, pure] at h; subst h; rfl
-  | cons o orows ih =>
-    intro ors h
-    rw [rowsVec_cons] at h
-    cases hg : s.getVec o with
-    | none => rw [hg] at h; cases h
-    | some v =>
-      rw [hg] at h
-      cases hr : s.rowsVec orows with
-      | none => rw [hr] at h; cases h
-      | some vr =>
-        rw [hr] at h
-        simp only [Option.bind, Option.some.injEq] at h; subst h
-        simp [hg, ih vr hr]
-
-theorem guard_zip : ∀ (ps : List (Nat × Option VecObj)) (ors rows : List SV),
-    ps.map Prod.snd = ors.map (fun b => some (VecObj.sv b)) →
-    ∀ q ∈ List.zip ps rows, ∃ b, q.1.2 = some (.sv b) ∧ (q.2, b) ∈ List.zip rows ors := by
-  intro ps
-  induction ps with
-  | nil => intro ors rows _ q hq; simp at hq
-  | cons p ps ih =>
-    intro ors rows h q hq
-    cases ors with
-    | nil => simp at h
-    | cons b ors =>
-      cases rows with
-      | nil => simp at hq
-      | cons a rows =>
-        simp only [List.map_cons, List.cons.injEq] at h
-        simp only [List.zip_cons_cons, List.mem_cons] at hq ⊢
-        rcases hq with e | e
-        · subst e; exact ⟨b, h.1, Or.inl rfl⟩
-        · obtain ⟨b', h1, h2⟩ := ih ors rows h.2 q e
-          exact ⟨b', h1, Or.inr h2⟩
 
 /-- the dense image of a pre-read operand row -/
 def preDense : Option VecObj → Vec
@@ -623,38 +305,6 @@ def dense_hom_isa_self_statement : Prop :=
 
 /-! ### (2) boolean-row arrays: `& | ^`, `+` (or), `*` (and), `~`, `any` / `all` -/
 
-def slvRows (rows : List SLV) : List VecObj := rows.map VecObj.slv
-def denseRowsB (rows : List SLV) : Mat := rows.map SLV.toDense
-
-/-- the operators of a boolean array that NumPy defines on boolean arrays -/
-def LogicOp (op : BinOp) (l : LOp) : Prop := lopOf op = some l ∧ l ≠ .truediv ∧ cmpOf op = none
-
-theorem logic_fn (op : BinOp) (l : LOp) (h : LogicOp op l) : op.fnBool = (lopBin l).fnBool := by
-  obtain ⟨h1, h2, _⟩ := h
-  cases op <;> simp [lopOf] at h1 <;> subst h1 <;> first | rfl | exact absurd rfl h2
-
-theorem rowb_hom_sparse (op : BinOp) (l : LOp) (hl : LogicOp op l) (a b : SLV) (r : VecObj)
-    (ha : SLVWF a) (hb : SLVWF b) (h : (VecObj.slv a).opSparse op (.slv b) = .ok r) :
-    VecWF r ∧ np1 op.fnBool a.toDense b.toDense = .ok r.toDense := by
-  simp only [VecObj.opSparse, hl.2.2, hl.1] at h
-  obtain ⟨c, hc, e⟩ := except_map_ok h; subst e
-  have := dense_hom_logical_sparse l hl.2.1 a.copy b c (slv_copy_wf ha) hb hc
-  rw [logic_fn op l hl]
-  exact ⟨this.1, this.2⟩
-
-theorem rowsBool_slvRows (rows : List SLV) (hne : rows ≠ []) : rowsBool (slvRows rows) = true := by
-  cases rows with
-  | nil => exact absurd rfl hne
-  | cons a rows => rfl
-
-theorem coerce_bool (v : VecObj) (me : Bool) : coerce true true v me = v := by
-  unfold coerce; cases me <;> simp
-
-theorem map_coerce_bool (l : List VecObj) (me : Bool) : l.map (fun r => coerce true true r me) = l := by
-  induction l with
-  | nil => rfl
-  | cons a l ih => simp [coerce_bool, ih]
-
 /-- **boolean array ∘ logical vector** (`sab & slv`, `|`, `^`, `+`, `*`) -/
 theorem dense_hom_sab_slv (s : Store) (op : BinOp) (l : LOp) (hl : LogicOp op l) (rows : List SLV) (j : Nat) (b : SLV)
     (cs : List VecObj) (hne : rows ≠ []) (hw : ∀ r ∈ rows, SLVWF r) (hb : SLVWF b) (hj : s[j]? = some (.slv b))
@@ -686,62 +336,6 @@ theorem dense_hom_sab_invert (rows : List SLV) :
   apply List.map_congr_left
   intro a _
   exact (dense_hom_invert a).2
-
-/-- `any` of a logical vector -/
-theorem slv_dense_any (a : SLV) (ha : SLVWF a) : redVec .any a.toDense = .ok (b2r a.any) := by
-  simp only [redVec, SLV.any]
-  congr 2
-  rw [slv_toDense_eq]
-  unfold vecOf
-  rw [Bool.eq_iff_iff]
-  simp only [List.any_map, List.any_eq_true, List.mem_range, Function.comp, bne_iff_ne, Bool.not_eq_true',
-    List.isEmpty_eq_false_iff]
-  constructor
-  · rintro ⟨i, _, hne⟩ he
-    apply hne
-    simp [SLV.mem, he, b2r]
-  · intro hne
-    match hd : a.set with
-    | [] => exact absurd hd hne
-    | k :: r =>
-      have hk : k ∈ a.set := by rw [hd]; exact List.mem_cons_self
-      refine ⟨k, ha.2 k hk, ?_⟩
-      have : a.mem k = true := by simp only [SLV.mem, List.contains_eq_mem, decide_eq_true_eq]; exact hk
-      rw [this]; decide
-
-/-- `all` of a logical vector (`len(set) == size`) -/
-theorem slv_dense_all (a : SLV) (ha : SLVWF a) : redVec .all a.toDense = .ok (b2r a.allTrue) := by
-  simp only [redVec, SLV.allTrue]
-  congr 2
-  rw [slv_toDense_eq]
-  unfold vecOf
-  rw [Bool.eq_iff_iff]
-  simp only [List.all_map, List.all_eq_true, List.mem_range, Function.comp, bne_iff_ne, beq_iff_eq]
-  have hsub : ∀ x ∈ a.set, x ∈ List.range a.size := fun x hx => List.mem_range.mpr (ha.2 x hx)
-  have hmem : ∀ i, b2r (a.mem i) ≠ 0 ↔ i ∈ a.set := by
-    intro i
-    unfold SLV.mem
-    by_cases h : i ∈ a.set
-    · simp [h, b2r]
-    · simp [h, b2r]
-  constructor
-  · intro hall
-    have h1 := nodup_subset_length_le _ _ ha.1 hsub
-    have h2 : ∀ x ∈ List.range a.size, x ∈ a.set := fun x hx => (hmem x).mp (hall x (List.mem_range.mp hx))
-    have h3 := nodup_subset_length_le _ _ List.nodup_range h2
-    simp only [List.length_range] at h1 h3
-    omega
-  · intro hlen i hi
-    rw [hmem]
-    by_contra hni
-    have hsub' : ∀ x ∈ a.set, x ∈ (List.range a.size).erase i := by
-      intro x hx
-      have hxi : x ≠ i := by intro e; subst e; exact hni hx
-      exact (List.mem_erase_of_ne hxi).mpr (hsub x hx)
-    have := nodup_subset_length_le _ _ ha.1 hsub'
-    rw [List.length_erase_of_mem (List.mem_range.mpr hi)] at this
-    simp only [List.length_range] at this
-    omega
 
 /-- **`sab.any(axis=1)` / `sab.all(axis=1)`** of a boolean array -/
 theorem dense_hom_sab_any_all_axis1 (rows : List SLV) (hw : ∀ a ∈ rows, SLVWF a) :
@@ -781,32 +375,6 @@ theorem dense_hom_sab_any_all_axis1 (rows : List SLV) (hw : ∀ a ∈ rows, SLVW
       simp only [vecOf_length, slvRows, List.length_map] at h1
       simp [vecOf, slvRows, List.getElem?_eq_getElem h1, VecObj.allB]
 
-def pairSLV (rs os : List SLV) : List (SLV × SLV) :=
-  match rs, os with
-  | [r], _ => os.map (fun o => (r, o))
-  | _, [o] => rs.map (fun r => (r, o))
-  | _, _ => rs.zip os
-
-theorem pairRows_slv (rs os : List SLV) :
-    pairRows (slvRows rs) (slvRows os) = (pairSLV rs os).map (fun p => (VecObj.slv p.1, VecObj.slv p.2)) := by
-  rcases rs with _ | ⟨r, _ | ⟨r2, rt⟩⟩ <;> rcases os with _ | ⟨o, _ | ⟨o2, ot⟩⟩ <;>
-    simp [pairRows, pairSLV, slvRows, zipTrunc, List.zip_map, List.map_map, Function.comp_def]
-
-theorem np2_pairSLV (f : Rat → Rat → Rat) (rs os : List SLV)
-    (hshape : rs.length = os.length ∨ rs.length = 1 ∨ os.length = 1) :
-    np2 f (denseRowsB rs) (denseRowsB os) =
-      ((pairSLV rs os).map (fun p => (p.1.toDense, p.2.toDense))).mapM (fun p => np1 f p.1 p.2) := by
-  rcases rs with _ | ⟨r, _ | ⟨r2, rt⟩⟩ <;> rcases os with _ | ⟨o, _ | ⟨o2, ot⟩⟩ <;>
-    simp [np2, pairSLV, denseRowsB, List.zip_map, mapM_map, List.map_map, Function.comp_def] at hshape ⊢
-  intro hn; exact absurd hshape hn
-
-theorem pairSLV_mem (rs os : List SLV) (p : SLV × SLV) (h : p ∈ pairSLV rs os) : p.1 ∈ rs ∧ p.2 ∈ os := by
-  unfold pairSLV at h
-  split at h
-  · obtain ⟨o, ho, e⟩ := List.mem_map.mp h; subst e; exact ⟨List.mem_singleton.mpr rfl, ho⟩
-  · obtain ⟨r, hr, e⟩ := List.mem_map.mp h; subst e; exact ⟨hr, List.mem_singleton.mpr rfl⟩
-  · exact ⟨(List.of_mem_zip h).1, (List.of_mem_zip h).2⟩
-
 /-- **boolean array ∘ boolean array** (`sab & sbb`, `|`, `^`, `+`, `*`), one-row broadcasting included -/
 theorem dense_hom_sab_sab (s : Store) (op : BinOp) (l : LOp) (hl : LogicOp op l) (rows ors : List SLV) (j : Nat)
     (orows : List Nat) (cs : List VecObj) (hne : rows ≠ []) (hno : ors ≠ [])
@@ -826,5 +394,28 @@ theorem dense_hom_sab_sab (s : Store) (op : BinOp) (l : LOp) (hl : LogicOp op l)
   refine ⟨this.1, ?_⟩
   rw [np2_pairSLV op.fnBool rows ors hshape, mapM_map]
   exact this.2
+
+/-! ## Non-vacuity -/
+
+namespace Ex2
+def s : Store := [Obj.sv ⟨2, [(0, 1)], false⟩, Obj.sv ⟨2, [(1, -2)], false⟩, Obj.sa [0, 1]]
+def rows : List SV := [⟨2, [(0, 1)], false⟩, ⟨2, [(1, -2)], false⟩]
+def s' : Store := [Obj.sv ⟨2, [(0, 3)], false⟩, Obj.sv ⟨2, [(1, -6)], false⟩, Obj.sa [0, 1]]
+def sb : Store := [Obj.slv ⟨2, [0]⟩, Obj.slv ⟨2, [0, 1]⟩, Obj.sa [0, 1], Obj.slv ⟨2, [1]⟩]
+def brows : List SLV := [⟨2, [0]⟩, ⟨2, [0, 1]⟩]
+end Ex2
+
+/-- `sa *= 3` on a 2×2 array held in a store: every hypothesis of `dense_hom_isa_scalar` holds -/
+example : InplaceAgrees Ex2.s Ex2.s' [0, 1] Ex2.rows (BinOp.fn .mul) [3] :=
+  dense_hom_isa_scalar Ex2.s Ex2.s' .mul .mul rfl [0, 1] Ex2.rows ⟨false, false, [], [3]⟩ 3
+    (by decide) (by decide +kernel) (by decide +kernel) rfl (by decide +kernel)
+
+/-- and NumPy's in-place result on the dense image is the dense image of the new rows -/
+example : np2i (BinOp.fn .mul) (denseRows Ex2.rows) [[3]] = .ok [[3, 0], [0, -6]] := by decide +kernel
+
+/-- a boolean 2×2 array `&` a logical vector: the operation succeeds and agrees with NumPy -/
+example : binSA Ex2.sb .and (slvRows Ex2.brows) (.ref 3) = .ok (.rows [.slv ⟨2, []⟩, .slv ⟨2, [1]⟩]) ∧
+    np2 (BinOp.fnBool .and) (denseRowsB Ex2.brows) [(⟨2, [1]⟩ : SLV).toDense] = .ok [[0, 0], [0, 1]] := by
+  refine ⟨by decide +kernel, by decide +kernel⟩
 
 end ThermoVerif.Props.C09
